@@ -148,6 +148,7 @@ fn c08_judge(ctx: &C08Ctx, p: &Pos, depth: usize, out: &SearchOut, how: &str, us
     let (value, roots) = if use_plain { rs.root(p, depth, None) } else { rs.root_ab(p, depth) };
     ctx.ref_nodes.fetch_add(rs.nodes, Ordering::Relaxed);
     let expected = verif::score_from_value(value, &board_of(p));
+    ctx.rep.sample(|| json!({"fen": fen, "depth": depth, "how": how, "engine_score": score_json(&out.score), "reference_score": score_text(&expected), "bestmove": out.best}));
     if out.depth != Some(depth as u32) {
         ctx.rep.report("reported_depth_differs".to_string(), case(json!({"reported": out.depth})));
     }
@@ -392,6 +393,7 @@ pub fn run_c11(tier: Tier) -> i32 {
         let r = guarded(|| (verif::static_eval(&board_of(p)), verif::static_eval(&board_of(&f))));
         match r {
             Ok((a, b)) => {
+                rep.sample(|| json!({"fen": p.to_fen(), "flipped": f.to_fen(), "static_eval": a, "static_eval_flipped": b}));
                 if a != -b {
                     let stage = if p.board.iter().any(|&x| pc_kind(x) == QUEEN && x != EMPTY) { "queens_on_board" } else { "no_queens" };
                     rep.report(format!("static_eval_not_antisymmetric:{}", stage), json!({"kind": "static", "fen": p.to_fen(), "flipped": f.to_fen(), "eval": a, "eval_flipped": b}));
@@ -673,6 +675,7 @@ pub fn run_c10(tier: Tier) -> i32 {
                 queries.fetch_add(1, Ordering::Relaxed);
                 let out = search_depth(&mut sess, base, &moves, depth, &format!(" searchmoves {}", m.uci()));
                 let case = |extra: Value| json!({"kind": "history", "base": base.to_fen(), "history": moves, "searchmove": m.uci(), "depth": depth, "detail": extra});
+                rep.sample(|| json!({"base": base.to_fen(), "history": moves, "go": format!("depth {} searchmoves {}", depth, m.uci()), "engine_score": score_json(&out.score)}));
                 if let Some(pr) = &out.problem {
                     rep.report(format!("no_answer:{}", short(pr)), case(json!({"problem": pr})));
                     return;
